@@ -56,3 +56,12 @@ Theorem C02_preprocessed_glyphs_render_the_source_reversed : forall flatten gs g
       forall F r, resolve F gs g = Some r -> resolve F gs' g' = Some (map rev_contour r).
 Proof. exact tt_pre_renders_reversed. Qed.
 Print Assumptions C02_preprocessed_glyphs_render_the_source_reversed.
+
+From U2F Require Import Geometry.Examples.
+(* non-vacuity: the pipeline on the example glyph set (flattening on) *)
+Example C02_pipeline_on_example :
+  exists gs', tt_pre true false ex_gs = Some gs' /\
+    (exists g, assoc n_d gs' = Some g /\ gcomps g = [] /\ length (gcontours g) = 2%nat) /\
+    (exists g, assoc n_c gs' = Some g /\ map fst (gcomps g) = [n_a; n_a]).
+Proof. exact ex_tt. Qed.
+Print Assumptions C02_pipeline_on_example.
